@@ -175,8 +175,8 @@ def shard(col, module, pool_size, pop_bound):
 
 
 def run(ctx):
-    modules = ["numeric", "containers", "shapes"] if ctx.quick else \
-        ["numeric", "containers", "shapes", "strings", "raising"]
+    modules = ["numeric", "containers", "shapes", "lambdas"] if ctx.quick else \
+        ["numeric", "containers", "shapes", "strings", "raising", "lambdas"]
     k = 6 if ctx.quick else 9
     par.run_shards("props.c35_report:shard", [(m, k, 1 if ctx.quick else 2) for m in modules],
                    ctx.workers, ctx)
